@@ -21,27 +21,37 @@ func (v *Verifier) addInstrWrites(fn *ssa.Function, in ssa.Instruction, ws map[s
 		regH(t, ws, 0, -1)
 	}
 	addE := func(t types.Type) { regE(t, ws) }
+	regFresh = false
 	switch x := in.(type) {
 	case *ssa.Alloc:
 		if x.Heap {
 			ws["next"] = true
+			regFresh = true
 			addH(under(x.Type()).(*types.Pointer).Elem())
+			if types.TypeString(under(x.Type()).(*types.Pointer).Elem(), nil) == "bytes.Buffer" {
+				ws[compBufLen] = true
+			}
+			regFresh = false
 		} else {
 			cells[x] = true
 		}
 	case *ssa.MakeSlice:
 		ws["next"] = true
+		regFresh = true
 		addE(under(x.Type()).(*types.Slice).Elem())
+		regFresh = false
 	case *ssa.MakeMap:
 		ws["next"] = true
+		regFresh = true
 		regM(under(x.Type()).(*types.Map), ws)
+		regFresh = false
 	case *ssa.MakeChan:
 		ws["next"] = true
 	case *ssa.MakeInterface:
 		if _, isI := under(x.X.Type()).(*types.Interface); !isI && !directPayload(x.X.Type()) {
 			ws["next"] = true
 			for i, srt := range leafSorts(x.X.Type()) {
-				ws[bCompName(x.X.Type(), i)] = true
+				ws[bCompName(x.X.Type(), i)] = true // boxes are written once, at a fresh id
 				compSorts[bCompName(x.X.Type(), i)] = ArrSort(BV64, srt)
 			}
 		}
@@ -49,7 +59,9 @@ func (v *Verifier) addInstrWrites(fn *ssa.Function, in ssa.Instruction, ws map[s
 		if _, ok := under(x.Type()).(*types.Slice); ok {
 			if b, ok := under(x.X.Type()).(*types.Basic); ok && b.Info()&types.IsString != 0 {
 				ws["next"] = true
+				regFresh = true
 				addE(under(x.Type()).(*types.Slice).Elem())
+				regFresh = false
 			}
 		}
 	case *ssa.Store:
@@ -125,6 +137,17 @@ func (v *Verifier) addrWrites(addr ssa.Value, ws map[string]bool, cells map[*ssa
 	regH(root, ws, lo, hi)
 }
 
+// regFresh: true while registering writes that only initialise freshly allocated objects.
+// Keys "!name" mark components that may be written at pre-existing objects.
+var regFresh bool
+
+func markWS(ws map[string]bool, n string) {
+	ws[n] = true
+	if !regFresh {
+		ws["!"+n] = true
+	}
+}
+
 func regH(t types.Type, ws map[string]bool, lo, hi int) {
 	ss := leafSorts(t)
 	if hi < 0 {
@@ -132,7 +155,7 @@ func regH(t types.Type, ws map[string]bool, lo, hi int) {
 	}
 	for i := lo; i < hi; i++ {
 		n := hCompName(t, i)
-		ws[n] = true
+		markWS(ws, n)
 		compSorts[n] = ArrSort(BV64, ss[i])
 	}
 }
@@ -140,17 +163,17 @@ func regH(t types.Type, ws map[string]bool, lo, hi int) {
 func regE(t types.Type, ws map[string]bool) {
 	for i, srt := range leafSorts(t) {
 		n := eCompName(t, i)
-		ws[n] = true
+		markWS(ws, n)
 		compSorts[n] = ArrSort(BV64, ArrSort(BV64, srt))
 	}
 }
 
 func regM(mt *types.Map, ws map[string]bool) {
 	pn, ps, vn, vs := mapComps(mt)
-	ws[pn] = true
+	markWS(ws, pn)
 	compSorts[pn] = ps
 	for i, n := range vn {
-		ws[n] = true
+		markWS(ws, n)
 		compSorts[n] = vs[i]
 	}
 }
@@ -188,6 +211,9 @@ func (v *Verifier) callWrites(fn *ssa.Function, cc *ssa.CallCommon, ws map[strin
 		if w, ok := externWrites[key]; ok {
 			for _, c := range w {
 				ws[c] = true
+				if c != "next" {
+					ws["!"+c] = true
+				}
 			}
 			return
 		}
@@ -210,6 +236,9 @@ func (v *Verifier) callWrites(fn *ssa.Function, cc *ssa.CallCommon, ws map[strin
 	if w, ok := externWrites[key]; ok {
 		for _, c := range w {
 			ws[c] = true
+			if c != "next" && !externFreshOnly[key+"|"+c] {
+				ws["!"+c] = true
+			}
 		}
 		return
 	}
@@ -339,6 +368,12 @@ func (ex *Exec) cutLoop(fr *Frame, li *loopInfo, pc *Term, st *State, nloops int
 	}
 	sort.Strings(names)
 	for _, n := range names {
+		if strings.HasPrefix(n, "!") {
+			continue
+		}
+		if n != "next" && !ws["!"+n] {
+			continue // only freshly allocated objects of this component are written in the loop
+		}
 		if n == "next" {
 			old := st.next
 			st.next = Fresh("next", BV64)
@@ -346,7 +381,7 @@ func (ex *Exec) cutLoop(fr *Frame, li *loopInfo, pc *Term, st *State, nloops int
 			if b, k, ok := splitAddConst(old); ok && nextSyms[b] {
 				nextGE[st.next] = idBound{b, k}
 			}
-			ex.assume(pc, ULe(old, st.next))
+			ex.assume(pc, And(ULe(old, st.next), ULt(st.next, C64(1<<56))))
 			continue
 		}
 		srt := compSorts[n]
